@@ -1,7 +1,7 @@
 //! C47 (relay resource limits) and C48 (relay rate limiters).
 //! C47: a real relay::Behaviour in a real Swarm; scripted clients speak the hop/stop protocols in raw frames.
 use crate::net;
-use crate::node::begin;
+use crate::node::{begin, violated};
 use crate::pnode::*;
 use crate::script::*;
 use libp2p_identity::PeerId;
@@ -23,7 +23,7 @@ pub fn checks() -> Vec<Check> {
             id: "C47",
             title: "Relay resource limits hold",
             level: Level::Exploration,
-            rule: "A real relay::Behaviour (limits max_reservations 1..6, per peer 1..3, max_circuits 1..6, per peer 1..3, reservation and circuit durations of seconds, rate limiters off or default) runs in a real Swarm on the simulated network. 2..5 scripted clients with up to 3 connections each send RESERVE and CONNECT requests in raw hop frames (destinations answer the relay's stop request with OK, a refusal, or silence and hold the circuit stream), close connections, have connections reset under them (fault transport_reset) and let virtual time pass (reservation expiry, circuit duration). The relay's own events are folded (ReservationReqAccepted new / ReservationClosed / ReservationTimedOut; CircuitReqAccepted / CircuitClosed) and after every event: active reservations per peer <= max_reservations_per_peer, in total <= max_reservations, circuits involving any one peer (as source or destination) <= max_circuits_per_peer, in total <= max_circuits. Non-trivial = at least one request accepted and one denied with RESOURCE_LIMIT_EXCEEDED",
+            rule: "A real relay::Behaviour (limits max_reservations 1..6, per peer 1..3, max_circuits 1..6, per peer 1..3, reservation and circuit durations of seconds, rate limiters off or default) runs in a real Swarm on the simulated network. 2..5 scripted clients with up to 3 connections each send RESERVE and CONNECT requests in raw hop frames (destinations answer the relay's stop request with OK, a refusal, or silence and hold the circuit stream), close connections, have connections reset under them (fault transport_reset) and let virtual time pass (reservation expiry, circuit duration). Two independent views are checked. (1) Ground truth from the clients' side at every quiescent point: reservations whose RESERVE was answered OK, are unexpired and whose connection is open; circuits whose source saw OK, whose destination holds the matching stop stream (found in its inbound log with the connection that carries it), both connections open and the duration not reached - these counts must respect all four limits whatever the relay believes. (2) The relay's own events are folded (ReservationReqAccepted new / ReservationClosed / ReservationTimedOut; CircuitReqAccepted / CircuitClosed) and after every event: active reservations per peer <= max_reservations_per_peer, in total <= max_reservations, circuits involving any one peer (as source or destination) <= max_circuits_per_peer, in total <= max_circuits. Non-trivial = at least one request accepted and one denied with RESOURCE_LIMIT_EXCEEDED",
             assumptions: &["security and muxing are the E2 stubs (the relay protocol runs over SimMuxer substreams negotiated by the real multistream-select)", "clients are scripted (raw frames), so the relay client code is not exercised"],
             real: &["relay::Behaviour + its connection handler (inbound hop, outbound stop, CopyFuture)", "Swarm, connection pool, multistream-select"],
             stub: &["transport/security/muxer -> SimTransport/SimMuxer", "relay clients -> scripted frames", "clock -> virtual"],
@@ -71,6 +71,24 @@ fn hop_status(frame: &[u8]) -> Option<u64> {
         return None;
     }
     pb_get_varint(&f, 5)
+}
+
+#[derive(Clone)]
+struct Pending {
+    tag: u64,
+    is_res: bool,
+    client: usize,
+    conn: ConnectionId,
+    dst: usize,
+    issued: Duration,
+}
+
+struct GtCircuit {
+    src: usize,
+    src_conn: ConnectionId,
+    dst: usize,
+    dst_conn: ConnectionId,
+    issued: Duration,
 }
 
 struct Client {
@@ -142,7 +160,13 @@ fn run_relay_limits(stack: Stack) -> SimResult {
     let mut circ: Vec<(PeerId, PeerId)> = vec![];
     let (mut accepted, mut denied) = (0u32, 0u32);
     let mut tag = 0u64;
-    let mut pending_tags: Vec<(u64, bool)> = vec![]; // (tag, is_reserve)
+    let mut pending_tags: Vec<Pending> = vec![];
+    // Ground truth kept from the clients' side (the relay's own events could be wrong together with its accounting):
+    // reservations (client, connection) -> issue time of the last accepted RESERVE; circuits whose source saw OK and whose
+    // destination holds the matching stop stream.
+    let mut gt_res: BTreeMap<(usize, ConnectionId), Duration> = BTreeMap::new();
+    let mut gt_circ: Vec<GtCircuit> = vec![];
+    let mut matched_stops: std::collections::BTreeSet<(usize, u64)> = Default::default();
     let steps = 15 + choose(70);
     for step in 0..=steps {
         if step < steps {
@@ -167,7 +191,7 @@ fn run_relay_limits(stack: Stack) -> SimResult {
                         tag += 1;
                         let id = clients[c].conns[k];
                         clients[c].node.with(|b| b.open(rpeer, Some(id), OpenReq { tag, proto: HOP.into(), send: vec![hop_reserve()], read: 1, after: After::Close }));
-                        pending_tags.push((tag, true));
+                        pending_tags.push(Pending { tag, is_res: true, client: c, conn: id, dst: c, issued: elapsed() });
                     }
                 }
                 7..=9 => {
@@ -178,7 +202,7 @@ fn run_relay_limits(stack: Stack) -> SimResult {
                         tag += 1;
                         let id = clients[c].conns[k];
                         clients[c].node.with(|b| b.open(rpeer, Some(id), OpenReq { tag, proto: HOP.into(), send: vec![hop_connect(&dst)], read: 1, after: After::Hold }));
-                        pending_tags.push((tag, false));
+                        pending_tags.push(Pending { tag, is_res: false, client: c, conn: id, dst: d, issued: elapsed() });
                     }
                 }
                 10 => {
@@ -212,16 +236,20 @@ fn run_relay_limits(stack: Stack) -> SimResult {
                     _ => {}
                 }
             }
-            pending_tags.retain(|(t, is_res)| match outcome(&cl.shared, *t) {
+        }
+        let mut newly_accepted: Vec<Pending> = vec![];
+        for cl in clients.iter() {
+            pending_tags.retain(|pd| match outcome(&cl.shared, pd.tag) {
                 Some(Ok(frames)) => {
                     match frames.first().and_then(|f| hop_status(f)) {
                         Some(100) => {
                             accepted += 1;
-                            probe(if *is_res { "reservation-accepted" } else { "circuit-accepted" });
+                            newly_accepted.push(pd.clone());
+                            probe(if pd.is_res { "reservation-accepted" } else { "circuit-accepted" });
                         }
                         Some(201) => {
                             denied += 1;
-                            probe(if *is_res { "reservation-denied-limit" } else { "circuit-denied-limit" });
+                            probe(if pd.is_res { "reservation-denied-limit" } else { "circuit-denied-limit" });
                         }
                         Some(204) => probe("circuit-no-reservation"),
                         _ => {}
@@ -231,6 +259,42 @@ fn run_relay_limits(stack: Stack) -> SimResult {
                 Some(Err(_)) => false,
                 None => true,
             });
+        }
+        // ---- ground truth, evaluated at this quiescent point
+        for pd in newly_accepted {
+            if pd.is_res {
+                gt_res.insert((pd.client, pd.conn), pd.issued);
+            } else {
+                // the destination's stop stream for this circuit: the latest unmatched accepted inbound stop request naming the source
+                let src_bytes = clients[pd.client].node.peer.to_bytes();
+                let stop = clients[pd.dst].shared.lock().unwrap().log.iter().rev().find_map(|(seq, _, conn, e)| match e {
+                    SOut::Inbound { proto, request: Some(r), responded } if proto == STOP && *responded > 0 && !matched_stops.contains(&(pd.dst, *seq)) && r.windows(src_bytes.len()).any(|w| w == &src_bytes[..]) => Some((*seq, *conn)),
+                    _ => None,
+                });
+                if let Some((seq, dconn)) = stop {
+                    matched_stops.insert((pd.dst, seq));
+                    gt_circ.push(GtCircuit { src: pd.client, src_conn: pd.conn, dst: pd.dst, dst_conn: dconn, issued: pd.issued });
+                }
+            }
+        }
+        let now = elapsed();
+        gt_res.retain(|(c, conn), issued| clients[*c].conns.contains(conn) && now < *issued + res_dur);
+        gt_circ.retain(|g| clients[g.src].conns.contains(&g.src_conn) && clients[g.dst].conns.contains(&g.dst_conn) && now < g.issued + circ_dur);
+        if !violated() {
+            ensure!(gt_res.len() <= max_res, "C47/reservations-total", "clients hold {} reservations that were accepted, are unexpired and whose connection is open; max_reservations is {max_res}", gt_res.len());
+            ensure!(gt_circ.len() <= max_circ, "C47/circuits-total", "{} circuits were accepted and are certainly still running (both connections open, duration not reached, both ends hold their stream); max_circuits is {max_circ}", gt_circ.len());
+            for (i, cl) in clients.iter().enumerate() {
+                let r = gt_res.keys().filter(|(c, _)| *c == i).count();
+                ensure!(r <= max_res_peer, "C47/reservations-per-peer", "{} holds {r} accepted, unexpired reservations on open connections; max_reservations_per_peer is {max_res_peer}", cl.node.peer);
+                let n = gt_circ.iter().filter(|g| g.src == i || g.dst == i).count();
+                if n > max_circ_peer {
+                    probe("gt-circuit-limit-exceeded");
+                }
+                ensure!(n <= max_circ_peer, "C47/circuits-per-peer", "{n} circuits involving {} were accepted and are certainly still running (source and destination connections open, duration not reached, both ends hold their stream): {:?}; max_circuits_per_peer is {max_circ_peer}", cl.node.peer, gt_circ.iter().filter(|g| g.src == i || g.dst == i).map(|g| (g.src, g.src_conn, g.dst, g.dst_conn)).collect::<Vec<_>>());
+            }
+            if gt_circ.iter().any(|g| clients[g.dst].conns.len() > 1) {
+                probe("live-circuit-to-multi-connection-destination");
+            }
         }
         // relay side: fold its events, checking the limits after every one of them
         for (_, ev) in relay_node.take_events() {
